@@ -1,57 +1,103 @@
 #!/usr/bin/env python3
-"""run_seeded.py [<seeded id> ...]
+"""run_seeded.py [--in-repo] [<seeded id> ...]
 
-For each kept seeded change under /verif/seeded/<id>/ (patch.diff + meta.json): apply it to
-/repo (git apply), run the quick check(s) of the property it breaks, record whether the check
-reported a violation, and undo it straight afterwards (git checkout of the touched files).
-Nothing is ever committed to /repo. Results go to /verif/seeded/<id>/result.json and a summary
-table is printed. Evidence files written during these runs are restored afterwards (they must
-come from runs against the unchanged tree).
+Runs the registered quick checks against kept seeded changes (/verif/seeded/<id>/patch.diff +
+meta.json) and records whether each is caught (exit 1 + VIOLATION line).
+
+Default mode (used while other people build against /repo): the patch is applied to a scratch
+worktree (/tmp/seedrun-repo, `git -C /repo worktree add`), and the check runs in a private
+mount namespace in which that worktree is bind-mounted over /repo (`unshare -m`), with its own
+target dir (/verif/target-seeded) and evidence/replay dirs under /tmp, so neither /repo, nor
+the committed evidence, nor anybody else's build is touched. From the check's point of view
+this is exactly "git -C /repo apply <patch>".
+
+--in-repo: the literal procedure of the brief: `git -C /repo apply`, run, `git -C /repo checkout -- .`
+(refuses if /repo has uncommitted changes). Evidence files are backed up and restored.
+
+Results: /verif/seeded/<id>/result.json and a summary table.
 """
 import json, os, subprocess, sys, shutil, time
 
 ROOT = "/verif"
 SEEDED = os.path.join(ROOT, "seeded")
+WT = "/tmp/seedrun-repo"
 
 
 def sh(cmd, **kw):
     return subprocess.run(cmd, shell=True, text=True, stdout=subprocess.PIPE, stderr=subprocess.STDOUT, **kw)
 
 
+def run_checks_ns(props):
+    out = []
+    os.makedirs("/tmp/seedrun-evidence", exist_ok=True)
+    os.makedirs("/tmp/seedrun-replays", exist_ok=True)
+    for p in props:
+        t0 = time.time()
+        inner = (f"mount --bind {WT} /repo && cd {ROOT} && VERIF_TARGET_DIR=/verif/target-seeded "
+                 f"VERIF_EVIDENCE_DIR=/tmp/seedrun-evidence VERIF_REPLAY_DIR=/tmp/seedrun-replays ./check {p} quick")
+        r = sh(f"unshare -m bash -c '{inner}'")
+        lines = [l for l in r.stdout.splitlines() if l.startswith(("VIOLATION", "violation", "HARNESS-ERROR"))]
+        out.append({"property": p, "exit": r.returncode, "lines": [l[:400] for l in lines[:4]], "wall_s": round(time.time() - t0, 1)})
+    return out
+
+
+def run_checks_repo(props):
+    out = []
+    for p in props:
+        t0 = time.time()
+        r = sh(f"{ROOT}/check {p} quick", cwd=ROOT)
+        lines = [l for l in r.stdout.splitlines() if l.startswith(("VIOLATION", "violation", "HARNESS-ERROR"))]
+        out.append({"property": p, "exit": r.returncode, "lines": [l[:400] for l in lines[:4]], "wall_s": round(time.time() - t0, 1)})
+    return out
+
+
 def main():
-    ids = sys.argv[1:] or sorted(d for d in os.listdir(SEEDED) if os.path.isfile(os.path.join(SEEDED, d, "patch.diff")))
+    args = sys.argv[1:]
+    in_repo = "--in-repo" in args
+    args = [a for a in args if a != "--in-repo"]
+    ids = args or sorted(d for d in os.listdir(SEEDED) if os.path.isfile(os.path.join(SEEDED, d, "patch.diff")))
     rows = []
     for sid in ids:
         d = os.path.join(SEEDED, sid)
         meta = json.load(open(os.path.join(d, "meta.json")))
         props = meta.get("checks") or [meta["property"]]
         patch = os.path.join(d, "patch.diff")
-        if sh("git -C /repo status --porcelain --untracked-files=no").stdout.strip():
-            print("refusing: /repo has uncommitted changes")
-            return 2
-        r = sh(f"git -C /repo apply --check {patch}")
-        if r.returncode != 0:
-            rows.append((sid, props, "patch does not apply", ""))
-            continue
-        sh(f"git -C /repo apply {patch}")
-        backup = os.path.join(ROOT, "evidence.bak")
-        shutil.rmtree(backup, ignore_errors=True)
-        shutil.copytree(os.path.join(ROOT, "evidence"), backup)
-        result = {"id": sid, "runs": []}
-        try:
-            for p in props:
-                t0 = time.time()
-                r = sh(f"{ROOT}/check {p} quick", cwd=ROOT)
-                lines = [l for l in r.stdout.splitlines() if l.startswith(("VIOLATION", "violation", "HARNESS-ERROR", "KNOWN-FINDING"))]
-                result["runs"].append({"property": p, "exit": r.returncode, "lines": lines[:6], "wall_s": round(time.time() - t0, 1)})
-        finally:
-            sh("git -C /repo checkout -- .")
-            shutil.rmtree(os.path.join(ROOT, "evidence"), ignore_errors=True)
-            shutil.move(backup, os.path.join(ROOT, "evidence"))
+        result = {"id": sid, "mode": "in-repo" if in_repo else "namespace"}
+        if in_repo:
+            if sh("git -C /repo status --porcelain --untracked-files=no").stdout.strip():
+                print("refusing: /repo has uncommitted changes")
+                return 2
+            if sh(f"git -C /repo apply --check {patch}").returncode != 0:
+                rows.append((sid, props, "patch does not apply", ""))
+                continue
+            sh(f"git -C /repo apply {patch}")
+            backup = os.path.join(ROOT, "evidence.bak")
+            shutil.rmtree(backup, ignore_errors=True)
+            shutil.copytree(os.path.join(ROOT, "evidence"), backup)
+            try:
+                result["runs"] = run_checks_repo(props)
+            finally:
+                sh("git -C /repo checkout -- .")
+                shutil.rmtree(os.path.join(ROOT, "evidence"), ignore_errors=True)
+                shutil.move(backup, os.path.join(ROOT, "evidence"))
+        else:
+            # bring the scratch worktree to /repo's HEAD without touching file times needlessly
+            sh(f"git -C {WT} checkout -q --detach $(git -C /repo rev-parse HEAD)")
+            sh(f"git -C {WT} checkout -- .")
+            if sh(f"git -C {WT} apply --check {patch}").returncode != 0:
+                rows.append((sid, props, "patch does not apply", ""))
+                continue
+            sh(f"git -C {WT} apply {patch}")
+            try:
+                result["runs"] = run_checks_ns(props)
+            finally:
+                sh(f"git -C {WT} apply -R {patch}")
         caught = any(x["exit"] == 1 for x in result["runs"])
         result["caught"] = caught
+        result["head"] = sh("git -C /repo rev-parse --short HEAD").stdout.strip()
         json.dump(result, open(os.path.join(d, "result.json"), "w"), indent=1)
-        rows.append((sid, props, "CAUGHT" if caught else "missed", "; ".join(f"{x['property']}:exit{x['exit']}" for x in result["runs"])))
+        rows.append((sid, props, "CAUGHT" if caught else "missed", "; ".join(f"{x['property']}:exit{x['exit']}({x['wall_s']}s)" for x in result["runs"])))
+        print(rows[-1], flush=True)
     print()
     for r in rows:
         print(f"{r[0]:28s} {','.join(r[1]):14s} {r[2]:8s} {r[3]}")
